@@ -330,7 +330,9 @@ def _struct_cases(tier):
     for sc, sx_, sy in ((("a", "b"), ("a", "b"), ("a", "b")), (("a", "b"), ("b",), ("a", 1)), (("b",), (), ("b",)), (("a", "b"), (), ()), (("b",), ("a", "b"), ("b",))):
         C.append((f"where{sc}{sx_}{sy}", "where", [("A", sc, "bool"), A(*sx_), A(*sy)], {}, (1, 2)))
     C.append(("clip", "clip", [A("a", "b"), ("lit", 0.5), ("lit", 2.0)], {}, (0,)))
-    for src, dst in (((1, "b"), ("a", "b")), (("a", 1), ("a", "b")), ((1, 1), ("a", "b"))):
+    for src, dst in (((1, "b"), ("a", "b")), (("a", 1), ("a", "b")), ((1, 1), ("a", "b")),
+                     # dimensions PREPENDED by the broadcast (the rule may refuse them; if it answers, the cotangent has x's shape)
+                     (("a", 1), ("c", "a", "b")), ((1, "b"), ("c", "a", "b")), (("b",), ("a", "b")), (("a", 1, "b"), ("c", "a", "d", "b"))):
         C.append((f"broadcast_to{src}->{dst}", "broadcast_to", [A(*src), ("shape", dst)], {}, (0,)))
     return C
 
